@@ -504,6 +504,18 @@ theorem transfer_reinitialises (nAcc h0 : Nat) (vals : List (Nat × Nat)) (hv : 
     transfer_shape cfg_good (reach_SInv cfg_good nAcc h0 vals hv ops hw) hf htn hne ht
   exact ⟨fsh, a1, a2, a3, a4, a5, a6⟩
 
+/-- **nothing_pending_after_transfer.**  After any history, right after a successful transfer between different
+accounts — at any later height, with no allocation or slash in between — each party that holds a delegation can
+withdraw, the withdrawal succeeds (here the SDK's stake sanity check provably cannot fire: the hand-written stake is
+the truncated token worth of the shares) and pays exactly nothing: together with `rewards_paid_up_to_now` the
+transfer paid each party precisely what had accrued up to that moment, no more and no less. -/
+theorem nothing_pending_after_transfer (nAcc h0 : Nat) (vals : List (Nat × Nat)) (hv : vals.length ≤ nAcc) (ops : List Op)
+    {w : Nat} (hw : w < vals.length) {v' : VS} {h f t X rf rt : Nat} {recv : Bool} (hf : f < nAcc) (htn : t < nAcc)
+    (hne : f ≠ t) (ht : VS.transfer cfg (reachVS nAcc h0 vals ops w) h f t X recv = .ok (v', rf, rt))
+    {d sh h' : Nat} (hd : d = f ∨ d = t) (hdel : v'.del d = some sh) (hh : h ≠ h') :
+    ∃ v'', v'.withdrawMsg h' d = .ok (v'', 0) :=
+  transfer_nothing_pending cfg_good (reach_SInv cfg_good nAcc h0 vals hv ops hw) hf htn hne ht hd hdel hh
+
 /-- **transfer_frame.**  A transfer leaves every third party's reward entitlement alone: for every delegator other
 than the two parties the delegation and the starting info are unchanged, the cumulative reward ratio of every period
 that existed before the call is unchanged, the slash events are unchanged, and the validator's tokens and total
